@@ -1,6 +1,7 @@
 """C06 check configuration (see lib/props.py for the field meanings)."""
 
 PROP = {
+    "level_text_more": "The response part has a dimension 'name under the local domain of an enabled DHCP server without a lease of that name' (private client), and CNAME answers are also spelled with a trailing dot.",
     "thorough_scale": 4,
     "parts": [
         {"name": "table", "pkg": "internal/filtering",
